@@ -278,6 +278,17 @@ def gen_kk_ext(rng, quick=True):
 
 
 def gen_kk_cnls(rng, quick=True):
+    if rng.random() < 0.3:
+        # large enough, noisy enough and with enough evaluations for the arrival-count based early
+        # termination of the automatic num_RC range to fire (measured: 29-31 of 32 fits returned)
+        n = rng.randint(19, 21)
+        return {
+            "entry": "evaluate_log_F_ext",
+            "data": {"cdc": rng.choice(LADDERS[:2]), "logf": [5, 0], "n": n, "noise_pct": rng.choice([0.5, 1.0]),
+                     "noise_seed": rng.randrange(10**6), "mask": [], "order": "desc"},
+            "kwargs": {"test": "cnls", "num_F_ext_evaluations": 0, "add_capacitance": True, "add_inductance": True,
+                       "admittance": False, "max_nfev": 100, "timeout": 60},
+        }
     n = rng.randint(8, 10)
     kwargs = {
         "test": "cnls",
